@@ -73,7 +73,9 @@ Print Assumptions C03_own_meets_spec.
 
 Example C03_own_nonvacuous :
   own_completed true (trk_of [0; 2]) false
-    [VEmplace false 2 7; VAssignRv true 0 3; VMoveAssign false; VSwap; VSelfSwap true; VCopyAssign true; VAssignTmp false 1 4] = true /\
+    [VEmplace false 2 7; VAssignRv true 0 3; VMoveAssign false; VSwap; VSelfSwap true; VCopyAssign true; VAssignTmp false 1 4;
+     VScopedValue 2 9; VCopyIf true 0; VMoveIf false 2] = true /\
   own_completed true (trk_of [1; 2]) true
-    [FAssign false 1 5; FAssign true 2 6; FCopyAssign false; FMoveAssign true; FSwap; FSelfMoveAssign true; FInvoke false] = true.
+    [FAssign false 1 5; FAssign true 2 6; FCopyAssign false; FMoveAssign true; FSwap; FSelfMoveAssign true; FInvoke false;
+     FAssignCr true 1 8; FInvoke true] = true.
 Proof. split; vm_compute; reflexivity. Qed.
